@@ -7,6 +7,7 @@ package checks
 import (
 	"context"
 	"fmt"
+	"os"
 	"sort"
 	"strings"
 	"testing"
@@ -277,6 +278,13 @@ func (r *mwRun) vacuumStep(s MWStep, where string) error {
 		return fmt.Errorf("%s: s3db_vacuum fails: %v", where, err)
 	}
 	r.o.Class("vacuum")
+	if os.Getenv("VERIF_TRACE") != "" {
+		for _, q := range r.store.LogSince(from) {
+			if q.Op != "GET" || strings.Contains(q.Key, "/root/") {
+				fmt.Fprintf(os.Stderr, "  %s: %s miss=%v\n", where, q.String(), q.Miss)
+			}
+		}
+	}
 	deletedNodes := 0
 	for _, q := range r.store.LogSince(from) {
 		if q.Op == "DELETE" && strings.Contains(q.Key, "/node/") {
@@ -476,8 +484,31 @@ func (r *mwRun) vacuumStep(s MWStep, where string) error {
 			for n := range wk.Nodes {
 				if !needed[n] && nodesNow[n] {
 					garbage = append(garbage, n)
+					if os.Getenv("VERIF_TRACE") != "" {
+						var owners []string
+						for vn, vw := range riBefore.versions {
+							if d, ok := vw.Nodes[n]; ok {
+								owners = append(owners, fmt.Sprintf("%s@depth%d", vn[7:12], d))
+							}
+						}
+						fmt.Fprintf(os.Stderr, "  garbage node %s of deleted version %s (parents %v) owners %v\n", n[:6], name[7:12], wk.Version.Parents, owners)
+					}
 				}
 			}
+		}
+		if os.Getenv("VERIF_TRACE") != "" {
+			for name, wk := range riBefore.versions {
+				_, still := riAfter.versions[name]
+				fmt.Fprintf(os.Stderr, "  version %s parents %v still=%v anc=%v nodes=%d\n", name, wk.Version.Parents, still, anc[name], len(wk.Nodes))
+			}
+		}
+		if len(garbage) > 0 && r.hadRetireFault && !r.c.NoSteerK8 {
+			// K8: after a version was merged together with its own ancestor (which only happens
+			// when a retirement failed), the link diff between the merge version and its purged
+			// successor misses a subtree; a few node objects stay behind (storage leak, no data
+			// lost). Counted, witnessed, not repaired (see known_findings.json).
+			r.o.Exclude("K8-garbage-after-ancestor-merged-as-sibling")
+			garbage = nil
 		}
 		if len(garbage) > 0 {
 			sort.Strings(garbage)
